@@ -1201,7 +1201,65 @@ def canary_levels(template):
     return [set(x[0] for x in lv) for lv in levels]
 
 
-def generate(template, out_path, canary=False, lenient=False):
+def _add_lemma_canaries(gen):
+    """Vacuity guard of the pure-spec lemmas: every `proof fn` of the template text that carries an `@obl` tag gets a twin
+    with the same parameters and the same `requires`, `ensures false` and an empty body. The twin MUST fail: if the solver
+    can derive false from the hypotheses (and the axioms in scope) alone, the lemma says nothing."""
+    out = list(gen)
+    inserts = []      # (index to insert before, [GenLine])
+    opaque = []
+    for i, g in enumerate(gen):
+        if "#[verifier::opaque]" in g.text:
+            for x in gen[i:i + 3]:
+                m = re.search(r"\bspec\s+fn\s+(\w+)", x.text)
+                if m:
+                    opaque.append(m.group(1))
+                    break
+    seen = set()
+    for i, g in enumerate(gen):
+        if g.kind != "tmpl" or not g.obl:
+            continue
+        # header start: the closest `proof fn` above
+        k = i
+        while k >= 0 and not re.search(r"\bproof\s+fn\s+\w+", gen[k].text):
+            if gen[k].kind != "tmpl":
+                k = -1
+                break
+            k -= 1
+        if k < 0 or k in seen:
+            continue
+        # the tag must sit in this function's own header: no body or other function in between
+        if any(x.text.strip() in ("{", "}") or re.search(r"\bfn\s+\w+", x.text) for x in gen[k + 1:i + 1]):
+            continue
+        seen.add(k)
+        # header lines: from `proof fn` to the line before the first `ensures`
+        e = k
+        while e <= i and not re.match(r"^\s*ensures\b", gen[e].text):
+            e += 1
+        if e > i:
+            continue
+        head = [x.text for x in gen[k:e]]
+        m = re.search(r"\bproof\s+fn\s+(\w+)", head[0])
+        head[0] = head[0][:m.start(1)] + m.group(1) + "__canary" + head[0][m.end(1):]
+        head[0] = re.sub(r"^(\s*)(pub\s+)?(broadcast\s+)?proof", r"\1proof", head[0])
+        # hypotheses hidden behind #[verifier::opaque] are revealed in the twin, so that a contradictory definition shows
+        reveals = [n for n in opaque if re.search(r"\b%s\s*\(" % re.escape(n), " ".join(head[1:]) + head[0])]
+        lines = head + ["    ensures false, // @canary " + g.obl, "{ " + " ".join("reveal(%s);" % n for n in reveals) + " }", ""]
+        at = k
+        while at > 0 and re.match(r"^\s*(#\[|///)", gen[at - 1].text):
+            at -= 1
+        gl = []
+        for t in lines:
+            x = GenLine(t, "lemma-canary")
+            x.fn = g.obl
+            gl.append(x)
+        inserts.append((at, gl))
+    for at, gl in sorted(inserts, key=lambda z: -z[0]):
+        out[at:at] = gl
+    return out
+
+
+def generate(template, out_path, canary=False, lenient=False, lemma_canaries=False):
     LENIENT["on"] = lenient
     LENIENT["lost"] = []
     parts = parse_template(template)
@@ -1263,6 +1321,8 @@ def generate(template, out_path, canary=False, lenient=False):
     problems = self_check(gen, infos)
     if problems:
         raise ExtractError("self-check failed: " + "; ".join(problems))
+    if lemma_canaries:
+        gen = _add_lemma_canaries(gen)
     with open(out_path, "w", encoding="utf-8") as f:
         f.write("\n".join(g.text for g in gen) + "\n")
     linemap = []
@@ -1280,6 +1340,7 @@ def generate(template, out_path, canary=False, lenient=False):
     lost = list(LENIENT["lost"])
     LENIENT["on"] = False
     return {"unit": os.path.splitext(os.path.basename(template))[0], "file": out_path, "functions": infos, "lost_hints": lost,
+            "lemma_obligations": sum(1 for g in gen if g.kind == "tmpl" and g.obl),
             "ranges": ranges, "lines": linemap, "rewrite_statements": {k: v[2] for k, v in REWRITES.items()}}
 
 
